@@ -331,7 +331,7 @@ def has_gap(tree, date, name):
 
 def evaluate(ctx, cases, res, impl=None):
     impl = impl or ctx.build_impl()
-    drv = ctx.build_driver('iv')
+    drv = iv_common.build_iv_driver(ctx)
     env = env_with_shims(ctx)
     work = ctx.mkscratch('c17work')
     small = [(i, c) for i, c in enumerate(cases) if c['kind'] != 'hist']
